@@ -27,6 +27,11 @@ pub trait Monitor {
     fn owns_divergence(&self) -> bool {
         false
     }
+    /// A monitor that does not own divergences in general may still claim one that is
+    /// exactly what it watches for (e.g. "a refused seek moved the position" is C10's).
+    fn claims(&self, _d: &crate::engine::Divergence) -> bool {
+        false
+    }
 }
 
 pub fn steps_json(steps: &[Step]) -> J {
@@ -141,7 +146,7 @@ pub fn drive(ctx: &Ctx, case: u64, rng: &mut Rng, rep: &mut Report, mut opts: Dr
                 done.push(step.clone());
                 mon.before(&mut sess, &step, rep);
                 if let Some(d) = sess.run(&step) {
-                    if mon.owns_divergence() {
+                    if mon.owns_divergence() || mon.claims(&d) {
                         return Err((d.signature.clone(), format!("step #{} {}: expected {}, observed {}", d.step_index, d.step, d.expected, d.observed)));
                     }
                     rep.count("abandoned_model_divergence");
@@ -453,7 +458,20 @@ pub fn run_c02(ctx: &Ctx, rep: &mut Report) {
         let bufsize = *rng.pick(&[None, None, Some(1024usize), Some(4096)]);
         let mut mon = ReopenMonitor { last_hdr: None, fork_pct: 15 };
         let mix = *rng.pick(&[0, 0, 25]);
-        let info = drive(ctx, case, rng, rep, DriveOpts { version, bufsize, max_steps, cfg, handle_mix_pct: mix, max_handles: 3, start: None }, &mut mon);
+        // a fifth of the histories start from a synthesised foreign layout (red nodes,
+        // permuted sectors, directory gaps): write-through must hold there too
+        let mut start = None;
+        let mut version = version;
+        let mut cfg = cfg;
+        if rng.chance(1, 5) {
+            if let Some((s, v)) = foreign_start(rng) {
+                start = Some(s);
+                version = v;
+                cfg.names = crate::synth::SYNTH_NAMES;
+                rep.count("start.foreign_layout");
+            }
+        }
+        let info = drive(ctx, case, rng, rep, DriveOpts { version, bufsize, max_steps, cfg, handle_mix_pct: mix, max_handles: 3, start }, &mut mon);
         if info.steps.len() >= 5 && !info.abandoned {
             rep.nontrivial(info.hash);
         }
